@@ -46,6 +46,8 @@ func TestJob(t *testing.T) {
 			err = runKill(rec, sc)
 		case "failwrite":
 			err = runFailWrite(rec, sc)
+		case "ws":
+			err = runWS(rec, sc)
 		default:
 			err = fmt.Errorf("unknown scenario kind %q", sc.Kind)
 		}
